@@ -75,7 +75,7 @@ func formatFSM(format string, a []cty.Value) (string, error) {
 		verb.ArgNum = 0
 	}
 	action argidx_num {
-		verb.ArgNum = (10 * verb.ArgNum) + (int(fc) - '0')
+		verb.ArgNum = formatArgNumAppendDigit(verb.ArgNum, fc)
 	}
 
 	action has_width {
